@@ -393,6 +393,9 @@ package dnsmsg
 //@   trusted
 //@   modifies nothing
 //@   ensures m != nil && fresh(m)
+// a recycled message is empty and its (retained) section arrays belong to it alone
+//@   ensures len(m.Questions) == 0 && len(m.Answers) == 0 && len(m.Authorities) == 0 && len(m.Additionals) == 0
+//@   ensures (m.Questions == nil || fresh(m.Questions)) && (m.Answers == nil || fresh(m.Answers)) && (m.Authorities == nil || fresh(m.Authorities)) && (m.Additionals == nil || fresh(m.Additionals))
 //@   ensures m.ID == 0 && !m.Response && m.OpCode == 0 && !m.Authoritative && !m.Truncated && !m.RecursionDesired
 //@             && !m.RecursionAvailable && !m.AuthenticData && !m.CheckingDisabled && m.RCode == 0
 //@   ensures len(m.Questions) == 0 && len(m.Answers) == 0 && len(m.Authorities) == 0 && len(m.Additionals) == 0
@@ -478,15 +481,19 @@ package dnsmsg
 //@ func ReleaseMsg(m *Msg)
 //@   props C01 C20
 //@   requires m != nil && forall(k, 0, len(m.Questions), m.Questions[k] != nil) && okRecs(m.Answers) && okRecs(m.Authorities) && okRecs(m.Additionals)
-//@   modifies pkgheaps(dnsmsg), bytes()
+// frame: the message itself, its own section arrays, and question / record objects (of any message: they are
+// reached through m's arrays only); other messages' headers and section arrays are untouched
+//@   modifies *m, obj(m.Questions), obj(m.Answers), obj(m.Authorities), obj(m.Additionals), field(dnsmsg.Question), field(dnsmsg.ResourceHdr), field(dnsmsg.A), field(dnsmsg.AAAA), field(dnsmsg.MX), field(dnsmsg.NAMEResource), field(dnsmsg.SOA), field(dnsmsg.SRV), field(dnsmsg.RawResource), bytes()
 //@   ensures [C20:buffers-untouched] rootBytesKept()
 //@   loop 1:
 //@     invariant forall(k, 0, len(m.Questions), m.Questions[k] != nil) && okRecs(m.Answers) && okRecs(m.Authorities) && okRecs(m.Additionals)
 //@     invariant rootBytesKept()
 //@   loop 2:
+//@     modifies obj(m.Answers), obj(m.Authorities), obj(m.Additionals), field(dnsmsg.ResourceHdr), field(dnsmsg.A), field(dnsmsg.AAAA), field(dnsmsg.MX), field(dnsmsg.NAMEResource), field(dnsmsg.SOA), field(dnsmsg.SRV), field(dnsmsg.RawResource), bytes()
 //@     invariant okRecs(m.Answers) && okRecs(m.Authorities) && okRecs(m.Additionals)
 //@     invariant rootBytesKept()
 //@   loop 3:
+//@     modifies field(dnsmsg.ResourceHdr), field(dnsmsg.A), field(dnsmsg.AAAA), field(dnsmsg.MX), field(dnsmsg.NAMEResource), field(dnsmsg.SOA), field(dnsmsg.SRV), field(dnsmsg.RawResource), bytes()
 //@     invariant okRecs(rs) && okRecs(m.Answers) && okRecs(m.Authorities) && okRecs(m.Additionals)
 //@     invariant rootBytesKept()
 
@@ -742,6 +749,7 @@ package dnsmsg
 //@   ensures [C09:id] err == nil ==> BE16(b, 0) == m.ID
 //@   ensures [C09:opt-kept] err == nil && final(edns0Opt) != nil ==> len(m.Additionals) >= 1 && m.Additionals[len(m.Additionals)-1] == final(edns0Opt) && isOPT(final(edns0Opt))
 //@   ensures [C02:no-reorder] size <= 0 ==> m.Additionals == old(m.Additionals)
+//@   ensures [C20:own-array-kept] m.Additionals == nil || sameObj(m.Additionals, old(m.Additionals)) || fresh(m.Additionals)
 //@   ensures wfMsg(m)
 //@   loop 1:
 //@     modifies b[12:len(b)], obj(compressionMap), msgHdr.Truncated
